@@ -23,6 +23,7 @@ RULE = (
     "max_concurrency) and, for small programs, a systematic sweep of every hold-open completion order; plus a node-list permutation. "
     "Non-trivial = at least two different completion orders were actually executed for the program; distinct = digest of "
     "(program shape, inputs, fault plan, set of completion orders)."
+    ' Also varied per case: generator nodes, API spelling (decorators, explicit edges= mirroring the inferred topology, plain functions returning coroutines), object reuse between derivations, keyword-argument inputs, and the kind of injected exception (with/without arguments, TypeError with a call-mismatch text, KeyError).'
 )
 ASSUMPTIONS = [
     "output names are unique in generated programs, so node-list order must not matter",
